@@ -496,6 +496,18 @@ class Machine:
         if fatal:
             raise Violation(rule)
 
+    def choose(self, st, name, labels):
+        """A one-shot nondeterministic choice (not remembered after it has been used)."""
+        key = "$c:" + name
+        if key in st.flags:
+            return st.flags.pop(key)
+
+        def setv(i):
+            def f(s_):
+                s_.flags[key] = i
+            return f
+        raise Fork([(lab, setv(i)) for i, lab in enumerate(labels)], "unknown outcome: " + name)
+
     def where(self, st):
         if not st.frames:
             return "?"
@@ -743,7 +755,7 @@ class Machine:
         k = have
 
         def more(s):
-            c = s.new_cell()
+            c = s.new_cell(FULL & ~s.flags.get("tape_excl", 0))
             s.tape.append(c)
             if self.hooks is not None:
                 self.hooks.on_materialise(self, s, c)
